@@ -20,7 +20,7 @@ rows = ["| seeded change | what it does | caught by | how |", "|---|---|---|---|
 ids = sorted((os.path.basename(os.path.dirname(p)) for p in glob.glob(ROOT + "/seeded/*/meta.json")), key=order)
 for sid in ids:
     m = json.load(open(os.path.join(ROOT, "seeded", sid, "meta.json")))
-    caught = ",".join(m.get("caught_by") or []) or "**none**"
+    caught = ",".join(m.get("caught_by") or []) or ("n/a (neutralised)" if m.get("neutralised") else "**none**")
     rows.append("| {} | {} | {} | {} |".format(sid, cell(m.get("title") or "")[:80], caught, cell(m.get("note") or "")))
 table = "\n".join(rows)
 p = os.path.join(ROOT, "DESIGN.md")
